@@ -39,7 +39,7 @@ func (r *vRef) newest() int64 { return r.next - 1 }
 
 var vKeyTokens = []string{"-", `""`, "61", "6162", "*40.7"}
 var vValTokens = []string{"-", `""`, "76", "*33.1", "*300.2"}
-var vHdrTokens = []string{"_", "_", "68~76", `68~""`, "61~31;62~32", "6e~-"}
+var vHdrTokens = []string{"_", "_", "_", "68~76", `68~""`, "61~31;62~32", "6e~-", "*32767.97~76", "*32768.97~76"}
 
 func vGenPayload(rnd *vRand, big bool, res *vResult) (k, v, h string) {
 	k = vKeyTokens[rnd.Intn(len(vKeyTokens))]
@@ -80,15 +80,27 @@ func (r *vRef) instantiate(op int, rnd *vRand, res *vResult) string {
 		n := op - opAppend1 + 1
 		toks := make([]string, n)
 		r.ts += 10
+		bad := false
+		start := len(r.recs)
+		startNext := r.next
 		for i := 0; i < n; i++ {
 			k, v, h := vGenPayload(rnd, true, res)
 			toks[i] = k + "/" + v + "/" + h + "/-1"
+			if strings.Contains(h, "*32768.") {
+				bad = true
+			}
 			r.recs = append(r.recs, vRefRec{r.next, r.ts + int64(i), r.epoch, k, v, h})
 			r.next++
+		}
+		if bad { // the whole batch is refused
+			r.recs = r.recs[:start]
+			r.next = startNext
 		}
 		return fmt.Sprintf("append %d %d %s", r.epoch, r.ts, strings.Join(toks, " "))
 	case opAppendSet:
 		n := 1 + rnd.Intn(3)
+		big := false
+		_ = big
 		toks := make([]string, n)
 		r.ts += 10
 		if rnd.Intn(3) == 0 {
@@ -96,6 +108,9 @@ func (r *vRef) instantiate(op int, rnd *vRand, res *vResult) string {
 		}
 		for i := 0; i < n; i++ {
 			k, v, h := vGenPayload(rnd, false, res)
+			for strings.Contains(h, "*32768.") { // cannot occur in a replicated set: no leader could have encoded it
+				_, _, h = vGenPayload(rnd, false, nil)
+			}
 			toks[i] = fmt.Sprintf("%d/%d/%d/%s/%s/%s", r.next, r.ts+int64(i), r.epoch, k, v, h)
 			r.recs = append(r.recs, vRefRec{r.next, r.ts + int64(i), r.epoch, k, v, h})
 			r.next++
@@ -176,6 +191,9 @@ func vC01Oracle(prog, impl []string) (string, string) {
 			if !strings.HasPrefix(out, "ok ") {
 				if strings.HasPrefix(out, "err readonly") || strings.HasPrefix(out, "err incorrect-offset") {
 					continue
+				}
+				if strings.HasPrefix(out, "err encode") && strings.Contains(op, "*32768.") {
+					continue // a header key that does not fit its 16-bit length prefix cannot be stored: not accepted
 				}
 				return fmt.Sprintf("op %d: append rejected: %s", i, out), "append-rejected"
 			}
